@@ -7,11 +7,12 @@ from seed_meta import NEEDS
 from seed_meta2 import NEEDS2
 from seed_meta3 import NEEDS3
 from seed_meta4 import NEEDS4
+from seed_meta5 import NEEDS5
 try:
-    from seed_meta5 import NEEDS5
+    from seed_meta6 import NEEDS6
 except ImportError:
-    NEEDS5 = {}
-ALL = {**NEEDS, **NEEDS2, **NEEDS3, **NEEDS4, **NEEDS5}
+    NEEDS6 = {}
+ALL = {**NEEDS, **NEEDS2, **NEEDS3, **NEEDS4, **NEEDS5, **NEEDS6}
 out, mapping, tlog = sys.argv[1], dict(m.split('=') for m in sys.argv[2].split(',')), sys.argv[3]
 tests = {}
 for line in open(tlog):
